@@ -2,7 +2,7 @@ import Fundraising.Proofs.WFBasic
 /-
   `placeBid` and `modifyBid` preserve `WF` and `BankNonneg`.
 -/
-namespace Fundraising
+namespace Fundraising.WFInv
 
 theorem BidWF.setRemaining {a : Auction} {al : List Allowed} {b : Bid} (h : BidWF a al b) (r : Int) :
     BidWF { a with remaining := r } al b :=
@@ -31,8 +31,8 @@ theorem placeBid_view {aid : Nat} {v : AView} {r' : Int} {bid : Bid} (V : ViewWF
     bids := by
       intro b hbm
       rcases List.mem_append.mp hbm with hbm | hbm
-      · exact (V.bids b hbm).setRemaining r'
-      · simp at hbm; subst hbm; exact hb.setRemaining r'
+      · exact BidWF.setRemaining (V.bids b hbm) r'
+      · simp at hbm; subst hbm; exact BidWF.setRemaining hb r'
     bidIds := by
       show (v.bids ++ [bid]).map (·.id) = (List.range (v.bids ++ [bid]).length).map (· + 1)
       rw [List.map_append, V.bidIds, List.length_append, List.length_singleton, List.range_succ,
@@ -110,7 +110,7 @@ theorem placeBid_wf {c c' : Ctx} {bidder : Acc} {aid : Nat} {t : BidType} {price
       simp only [Bool.or_eq_true, beq_iff_eq, Bool.not_eq_true', decide_eq_false_iff_not] at k2 k3 k4
       obtain ⟨f2, _, n2⟩ := bankCall_frame hb2
       have f := (f1.trans f2).trans f3
-      refine ⟨WF.ctx_setView (hw.frame f) aid _ ?_,
+      refine ⟨WF.ctx_setView (WF.frame f hw) aid _ ?_,
         fun hn => n3 (n2 (mkCoins_nonneg hmk) (n1 (validCoins_pos hw.params.2) hn))⟩
       refine placeBid_view V hst ?_ rfl ?_ ?_
       · exact {
@@ -137,7 +137,7 @@ theorem placeBid_wf {c c' : Ctx} {bidder : Acc} {aid : Nat} {t : BidType} {price
       simp only [beq_iff_eq] at k2
       obtain ⟨f2, _, n2⟩ := bankCall_frame hb2
       have f := (f1.trans f2).trans f3
-      refine ⟨WF.ctx_setView (hw.frame f) aid _ ?_,
+      refine ⟨WF.ctx_setView (WF.frame f hw) aid _ ?_,
         fun hn => n3 (n2 (mkCoins_nonneg hmk) (n1 (validCoins_pos hw.params.2) hn))⟩
       refine placeBid_view (r' := v.a.remaining) V hst ?_ rfl (fun _ => rfl) ?_
       · exact {
@@ -162,7 +162,7 @@ theorem placeBid_wf {c c' : Ctx} {bidder : Acc} {aid : Nat} {t : BidType} {price
       simp only [beq_iff_eq] at k2
       obtain ⟨f2, _, n2⟩ := bankCall_frame hb2
       have f := (f1.trans f2).trans f3
-      refine ⟨WF.ctx_setView (hw.frame f) aid _ ?_,
+      refine ⟨WF.ctx_setView (WF.frame f hw) aid _ ?_,
         fun hn => n3 (n2 (mkCoins_nonneg hmk) (n1 (validCoins_pos hw.params.2) hn))⟩
       refine placeBid_view (r' := v.a.remaining) V hst ?_ rfl (fun _ => rfl) ?_
       · exact {
@@ -317,7 +317,7 @@ theorem modifyBid_wf {c c' : Ctx} {bidder : Acc} {aid bidId : Nat} {price : Dec}
         simp only [hbt] at hm
         rw [pure_ok] at hm; subst hm; exact ⟨Frame.refl _, id⟩
     obtain ⟨f1, n1⟩ := key
-    refine ⟨WF.ctx_setView (hw.frame (f1.trans f3)) aid _ ?_, fun hn => n3 (n1 hn)⟩
+    refine ⟨WF.ctx_setView (WF.frame (f1.trans f3) hw) aid _ ?_, fun hn => n3 (n1 hn)⟩
     exact modifyBid_view V hbid hid ht hprice hamt (Int.not_lt.mp k2)
 
-end Fundraising
+end Fundraising.WFInv
